@@ -12,6 +12,7 @@
 import Mathlib.Algebra.Order.Field.Basic
 import TjdModel.Agg.Spec
 import TjdLemmas.QPExist
+import TjdLemmas.QPComplete
 namespace Tjd.Props.C03c
 open Tjd Tjd.Agg
 
@@ -47,6 +48,26 @@ theorem upgrad_projections_exist_unique (J : Mat α) (m n : Nat) (hJ : MatWF J m
 theorem qp_min_is_kkt (G : Mat α) (m : Nat) (hG : SymmSquare G m) (hpd : PosDef G m) (u w : Vec α)
     (hu : u.length = m) (h : IsQPMin G u w) : kktCheck G u w = true := by
   exact kktCheck_of_isQPMin G m hG hpd u w hu h
+
+/-! ### completeness of the model's certified search (the function the driver executes): on every valid input it
+      FINDS the certificate, so the theorems of C03 of the form `… = some (w, mg) → …` are never vacuous and the
+      correspondence can never lose a case to "no certificate found".  Rests on a correctness proof of the model's
+      Gauss–Jordan routine `solve` for systems with trivial kernel (`solve_complete_qpc`). -/
+
+/-- total correctness of `qpProject`: it returns, and what it returns is THE minimiser -/
+theorem qpProject_total (G : Mat α) (m : Nat) (hG : SymmSquare G m) (hpd : PosDef G m) (u : Vec α)
+    (hu : u.length = m) :
+    ∃ w mg, qpProject G u = some (w, mg) ∧ IsQPMin G u w ∧ ∀ w', IsQPMin G u w' → w' = w := by
+  exact qpProject_total_qpc G m hG hpd u hu
+
+/-- the DualProj and UPGrad weight models return an answer for every matrix, every `s`, `norm_eps`, every
+    `reg_eps > 0`, every preference vector of the right length -/
+theorem dualproj_upgrad_models_total (J : Mat α) (m n : Nat) (hJ : MatWF J m n) (s normEps regEps : α)
+    (hre : 0 < regEps) (u : Vec α) (hu : u.length = m) :
+    (∃ w mg, dualprojWeights J s normEps regEps u = some (w, mg)) ∧
+    (∃ w mg, upgradWeights J s normEps regEps u = some (w, mg)) := by
+  exact ⟨dualprojWeights_complete J m n hJ s normEps regEps hre u hu,
+    upgradWeights_complete J m n hJ s normEps regEps hre u hu⟩
 
 /-- non-vacuity: the hypotheses are met by a concrete conflicting instance -/
 example : SymmSquare ([[2, -1], [-1, 2]] : Mat Rat) 2 ∧ ([1, 0] : Vec Rat).length = 2 := by
